@@ -321,6 +321,37 @@ func tmplBuildData(d tmplData, round int) (*document.TemplateData, error) {
 			td.SetImageFromData(name, tinyPNGSize(i+1, 2+i, 2+i), &document.ImageConfig{AltText: name})
 		}
 	}
+	// the getters return what the setters stored (and nothing for absent names)
+	for k, v := range vals {
+		if got, ok := td.GetVariable(k); !ok || !reflect.DeepEqual(got, v) {
+			return nil, fmt.Errorf("GetVariable(%s) does not return the stored value", k)
+		}
+	}
+	for _, k := range []string{"v1", "v2"} {
+		if _, want := vals[k]; !want {
+			if _, ok := td.GetVariable(k); ok {
+				return nil, fmt.Errorf("GetVariable(%s) returns a value that was never set", k)
+			}
+		}
+	}
+	for _, k := range d.Conds.keys() {
+		var b bool
+		_ = json.Unmarshal(d.Conds[k], &b)
+		if got, ok := td.GetCondition(k); !ok || got != b {
+			return nil, fmt.Errorf("GetCondition(%s) does not return the stored value", k)
+		}
+	}
+	for _, k := range d.Lists.keys() {
+		want, _ := tmplItems(d.Lists[k], round)
+		if got, ok := td.GetList(k); !ok || !reflect.DeepEqual(got, want) {
+			return nil, fmt.Errorf("GetList(%s) does not return the stored list", k)
+		}
+	}
+	for _, name := range d.Imgs {
+		if img, ok := td.GetImage(name); !ok || img == nil || len(img.Data) == 0 {
+			return nil, fmt.Errorf("GetImage(%s) does not return the stored image", name)
+		}
+	}
 	return td, nil
 }
 
@@ -398,6 +429,7 @@ func tmplRound(c *tmplCase, round int) (ret, text, got, want, pmsg string) {
 	ret, pmsg = guard(func() string {
 		td, err := tmplBuildData(c.Data, round)
 		if err != nil {
+			got = "!" + err.Error()
 			return "dataerr"
 		}
 		eng := document.NewTemplateEngine()
